@@ -40,8 +40,8 @@ m = {
     "not_applicable": na,
     "notes": "Every check = TLC design check of the TLA+ specification + TLC-generated scenarios driven through the real gwf + TLC validation of the recorded observations against the same specification. Fixed defects and open findings: known_findings.json.",
 }
-if not na:
-    del m["not_applicable"]
+#if not na:
+#    del m["not_applicable"]
 json.dump(m, open(os.path.join(HERE, "MANIFEST.json"), "w"), indent=1)
 import subprocess
 sys.exit(subprocess.call(["python3-vt", "-c", "import json,jsonschema; jsonschema.validate(json.load(open(\"%s/MANIFEST.json\")), json.load(open(\"/root/.vp/MANIFEST.schema.json\"))); print(\"MANIFEST ok\")" % HERE]))
